@@ -1,4 +1,4 @@
-//! `c20gen <verif_seed> <engine_tag> <first_index> <count> <full|light|tiny>`
+//! `c20gen <verif_seed> <engine_tag> <first_index> <count> <full|light|tiny|cover>`
 //! prints one line per scenario: `<index> <run_seed> <encoded scenario>`.
 //! `c20gen describe <encoded scenario>` prints the JSON description.
 use c20common::*;
@@ -13,14 +13,14 @@ fn main() {
         return;
     }
     if a.len() != 6 {
-        eprintln!("usage: c20gen <verif_seed> <engine_tag> <first_index> <count> <full|light|tiny>");
+        eprintln!("usage: c20gen <verif_seed> <engine_tag> <first_index> <count> <full|light|tiny|cover>");
         std::process::exit(2);
     }
     let vs: u64 = a[1].parse().expect("verif_seed");
     let eng: u64 = a[2].parse().expect("engine_tag");
     let first: u64 = a[3].parse().expect("first_index");
     let count: u64 = a[4].parse().expect("count");
-    let prof = match a[5].as_str() { "full" => Profile::Full, "light" => Profile::Light, "tiny" => Profile::Tiny, _ => { eprintln!("bad profile"); std::process::exit(2) } };
+    let prof = match a[5].as_str() { "full" => Profile::Full, "light" => Profile::Light, "tiny" => Profile::Tiny, "cover" => Profile::Cover, _ => { eprintln!("bad profile"); std::process::exit(2) } };
     for i in first..first + count {
         let s = derive_seed(vs, eng, i);
         println!("{} {} {}", i, s, encode(&generate(s, prof)));
